@@ -259,46 +259,66 @@ func BuildSelect(query *Query, slct *sqlparser.Select) error {
 }
 
 func BuildUnion(query *Query, expr *sqlparser.Union) error {
-	leftStatement := expr.Left.(*sqlparser.Select)
-	leftStatement.With = expr.With
-	rightStatement := expr.Right.(*sqlparser.Select)
-	rightStatement.With = expr.With
-	left, err := Prepare(query.data, leftStatement, query.options)
+	leftDataArray, err := execUnionBranch(query, expr.Left, expr.With)
 	if err != nil {
 		return err
 	}
-	leftData, err := left.execAndPostProcess()
+	rightDataArray, err := execUnionBranch(query, expr.Right, expr.With)
 	if err != nil {
 		return err
 	}
-	right, err := Prepare(query.data, rightStatement, query.options)
-	if err != nil {
-		return err
-	}
-	rightData, err := right.execAndPostProcess()
-	if err != nil {
-		return err
-	}
-	leftDataArray, err := AsArray(leftData)
-	if err != nil {
-		return err
-	}
-	rightDataArray, err := AsArray(rightData)
-	if err != nil {
-		return err
-	}
-
 	slice := make([]any, 0)
 	slice = append(slice, leftDataArray...)
 	slice = append(slice, rightDataArray...)
 	query.from = slice
+	// the combined rows are passed through as they are: `UNION` removes
+	// duplicates, `UNION ALL` keeps them
 	query.selectDefinition = sqlparser.SelectExprs{}
-	query.selectDefinition.Exprs = make([]sqlparser.SelectExpr, 0)
+	query.selectDefinition.Exprs = []sqlparser.SelectExpr{&sqlparser.StarExpr{}}
+	query.distinct = expr.Distinct
+	err = BuildOrder(query, &expr.OrderBy)
+	if err != nil {
+		return err
+	}
 	err = BuildLimit(query, expr.Limit)
 	if err != nil {
 		return err
 	}
 	return nil
+}
+
+// execUnionBranch evaluates one side of a union; a side may itself be a union
+func execUnionBranch(query *Query, statement sqlparser.TableStatement, with *sqlparser.With) ([]any, error) {
+	switch statement := statement.(type) {
+	case *sqlparser.Select:
+		{
+			if statement.With == nil {
+				statement.With = with
+			}
+		}
+	case *sqlparser.Union:
+		{
+			if statement.With == nil {
+				statement.With = with
+			}
+		}
+	default:
+		{
+			return nil, UNSUPPORTED_CASE.Extend(fmt.Sprintf("%T is not supported in a union", statement))
+		}
+	}
+	branch, err := Prepare(query.data, statement, query.options)
+	if err != nil {
+		return nil, err
+	}
+	data, err := branch.execAndPostProcess()
+	if err != nil {
+		return nil, err
+	}
+	if data == nil {
+		return nil, nil
+	}
+	return AsArray(data)
 }
 
 func BuildCte(query *Query, expr *sqlparser.With) error {
